@@ -108,19 +108,26 @@ ChunkArea(cl, PCH(_), PCHV(_)) ==
 (* It has what the framing laws need from Huffman: a total decoder with a  *)
 (* capacity, Decode(Encode(s)) = s, outputs that are sometimes shorter     *)
 (* and sometimes longer than the input, inputs that expand past a packet,  *)
-(* and invalid streams.                                                    *)
+(* invalid streams, and an end marker after which trailing bytes are       *)
+(* ignored (so that the raw length of a datagram and the length of its     *)
+(* decompressed body can fall on different sides of a length check).       *)
 (***************************************************************************)
 ToyZ(s) ==
   LET F(acc, b) == IF acc # <<>> /\ acc[Len(acc)] = b /\ acc[Len(acc) - 1] < 255
                    THEN [acc EXCEPT ![Len(acc) - 1] = @ + 1]
                    ELSE acc \o <<1, b>>
   IN [ok |-> TRUE, data |-> FoldLeft(F, <<>>, s)]
+\* like Huffman, the toy stream has an end marker (a pair with count 0) after which the decoder ignores
+\* whatever follows; without marker the stream ends with the input
+ToyEOF == <<0, 0>>
 ToyD(z, cap) ==
-  IF Len(z) % 2 = 1 THEN [k |-> "err", data |-> <<>>]
-  ELSE LET F(acc, j) == IF acc.k = "err" THEN acc
-                        ELSE LET cnt == z[2 * j - 1] IN
-                             IF cnt = 0 \/ Len(acc.data) + cnt > cap
-                             THEN [k |-> "err", data |-> <<>>]
-                             ELSE [k |-> "ok", data |-> acc.data \o Rep(cnt, z[2 * j])]
-       IN FoldLeft(F, [k |-> "ok", data |-> <<>>], Iota(Len(z) \div 2))
+  LET Bad == [k |-> "err", data |-> <<>>]
+      F(acc, j) == IF acc.k # "run" THEN acc
+                   ELSE LET cnt == z[2 * j - 1] IN
+                        IF cnt = 0 THEN [acc EXCEPT !.k = "ok"]
+                        ELSE IF Len(acc.data) + cnt > cap THEN Bad
+                        ELSE [acc EXCEPT !.data = @ \o Rep(cnt, z[2 * j])]
+      a == FoldLeft(F, [k |-> "run", data |-> <<>>], Iota(Len(z) \div 2))
+  IN IF a.k # "run" THEN a
+     ELSE IF Len(z) % 2 = 1 THEN Bad ELSE [k |-> "ok", data |-> a.data]
 =============================================================================
